@@ -207,12 +207,29 @@ def _is_code(v):
     return isinstance(v, (types.ModuleType, type) + _CODE_LIKE)
 
 
+def _function_state(key, fn):
+    """State a function object can carry: mutable default arguments and function attributes."""
+    fn = getattr(fn, '__func__', fn)
+    if not isinstance(fn, types.FunctionType):
+        return
+    d = fn.__defaults__
+    if d and not _SCALARSET.issuperset(map(type, d)):
+        yield key + '.__defaults__', fn, '__defaults__', d
+    kd = fn.__kwdefaults__
+    if kd and not _SCALARSET.issuperset(map(type, kd.values())):
+        yield key + '.__kwdefaults__', fn, '__kwdefaults__', kd
+    if fn.__dict__:
+        yield key + '.__dict__', fn, '__dict__', fn.__dict__
+
+
 def module_state_items(modules=STATE_MODULES):
     """The module-level and class-level data of the loaded modules named in
     `modules` (a name with a dot also selects its sub-modules): every module
     global and every class attribute that is not a module, a class, a function or
-    a descriptor (those are code, not state).  Yields (key, owner, attribute
-    name, value) in sorted order; key = 'module:global' or 'module:Class.attr'."""
+    a descriptor (those are code, not state), plus what functions and methods can
+    carry along: non-scalar default arguments and function attributes.  Yields
+    (key, owner, attribute name, value) in sorted order; key = 'module:global' or
+    'module:Class.attr'."""
     for name in sorted(sys.modules):
         if not any(name == m or (m.count('.') >= 1 and name.startswith(m + '.')) for m in modules):
             continue
@@ -226,11 +243,18 @@ def module_state_items(modules=STATE_MODULES):
             if isinstance(v, type):
                 if getattr(v, '__module__', None) == name:
                     for ck in sorted(vars(v)):
+                        cv = vars(v)[ck]
+                        if isinstance(cv, (types.FunctionType, staticmethod, classmethod)):
+                            yield from _function_state('%s:%s.%s' % (name, k, ck), cv)
+                            continue
                         if ck.startswith('__') and ck.endswith('__'):
                             continue
-                        cv = vars(v)[ck]
                         if not _is_code(cv):
                             yield '%s:%s.%s' % (name, k, ck), v, ck, cv
+                continue
+            if isinstance(v, types.FunctionType):
+                if getattr(v, '__module__', None) == name:
+                    yield from _function_state('%s:%s' % (name, k), v)
                 continue
             if _is_code(v):
                 continue
@@ -284,7 +308,12 @@ class ModuleSnapshot:
             ent = self.items.get(key)
             if ent is None:
                 try:
-                    delattr(owner, attr)
+                    if attr == '__dict__':
+                        owner.__dict__.clear()
+                    elif attr in ('__defaults__', '__kwdefaults__'):
+                        return False
+                    else:
+                        delattr(owner, attr)
                 except Exception:
                     return False
                 continue
